@@ -15,15 +15,23 @@ import FileD.Model.Mask
 namespace FileD.SpecC17
 open FileD FileD.Mask
 
-abbrev Range := Nat × Nat
+abbrev Range := Int × Int
 
-/-- ranges of the selected groups that took part in the match -/
+/-- start and end of group `g` in the flat index slice of one match -/
+def groupOf (index : Match) (g : Nat) : Option Range :=
+  match index[2 * g]?, index[2 * g + 1]? with
+  | some s, some e => some (s, e)
+  | _, _ => none
+
+/-- ranges of the selected groups that took part in the match (a negative index = did not),
+    in the order the groups are listed -/
 def selRanges (groups : List Nat) (index : Match) : List Range :=
   groups.filterMap fun g =>
-    match index[2 * g]?, index[2 * g + 1]? with
-    | some s, some e => if 0 ≤ s ∧ 0 ≤ e then some (s.toNat, e.toNat) else none
-    | _, _ => none
+    match groupOf index g with
+    | some (s, e) => if s < 0 ∨ e < 0 then none else some (s, e)
+    | none => none
 
+/-- position order -/
 def rangeLe (a b : Range) : Bool := a.1 < b.1 || (a.1 == b.1 && a.2 ≤ b.2)
 
 /-- unite overlapping neighbours of a position-ordered list (touching ranges stay apart) -/
@@ -47,11 +55,14 @@ def replacement (m : MaskCfg) (secret : Bytes) : Bytes :=
     let n := runeCount secret
     List.replicate (if m.maxCount > 0 then min n m.maxCount else n) star
 
+/-- bytes `lo..hi` of the value -/
+def segment (value : Bytes) (lo hi : Int) : Bytes := (value.drop lo.toNat).take (hi.toNat - lo.toNat)
+
 /-- `value` from position `pos` on with the (ordered, disjoint) sections replaced -/
-def replaceFrom (m : MaskCfg) (value : Bytes) : Nat → List Range → Bytes
-  | pos, [] => value.drop pos
-  | pos, (s, e) :: rest =>
-    (value.drop pos).take (s - pos) ++ replacement m ((value.drop s).take (e - s)) ++ replaceFrom m value e rest
+def replaceFrom (m : MaskCfg) (value : Bytes) : Int → List Range → Bytes
+  | pos, [] => value.drop pos.toNat
+  | pos, sec :: rest =>
+    segment value pos sec.1 ++ replacement m (segment value sec.1 sec.2) ++ replaceFrom m value sec.2 rest
 
 def allSections (groups : List Nat) (idx : Matches) : List Range :=
   idx.flatMap (sections groups)
@@ -59,6 +70,32 @@ def allSections (groups : List Nat) (idx : Matches) : List Range :=
 /-- the masked value, given the matches -/
 def maskedValue (m : MaskCfg) (idx : Matches) (value : Bytes) : Bytes :=
   replaceFrom m value 0 (allSections m.groups idx)
+
+/-! ### what is assumed of FindAllSubmatchIndex (checked on every case by the harness)
+
+Every match carries `nsub + 1` index pairs; group 0 lies within the value and after the previous
+match; every other group either did not take part (a negative index) or lies within group 0. -/
+
+def groupOk (s0 e0 : Int) (index : Match) (g : Nat) : Bool :=
+  match groupOf index g with
+  | some (s, e) => (s < 0 || e < 0) || (s0 ≤ s && s ≤ e && e ≤ e0)
+  | none => false
+
+def matchShape (nsub : Nat) (lo hi : Int) (index : Match) : Bool :=
+  match groupOf index 0 with
+  | some (s0, e0) => lo ≤ s0 && s0 ≤ e0 && e0 ≤ hi && (List.range (nsub + 1)).all (groupOk s0 e0 index)
+  | none => false
+
+def re2Shape (nsub : Nat) (len : Int) : Int → Matches → Bool
+  | _, [] => true
+  | lo, index :: rest =>
+    matchShape nsub lo len index &&
+      match groupOf index 0 with
+      | some (_, e0) => re2Shape nsub len e0 rest
+      | none => false
+
+/-- `cfg.VerifyGroupNumbers` passed: every selected group exists in the expression -/
+def groupsOk (groups : List Nat) (nsub : Nat) : Bool := groups.all (· ≤ nsub)
 
 /-! ### which masks see a leaf -/
 
@@ -74,36 +111,49 @@ def pathEligible (c : Cfg) (m : MaskCfg) (path : List Bytes) : Bool :=
   else if c.gkind == 2 then covers c.gpaths path
   else true
 
-/-- one leaf through the mask list: current value, "changed", indices of the masks that applied
-    (`none`: the oracle table has no row for a value that is asked for) -/
-def leafLoop (c : Cfg) (re : Oracle) (path : List Bytes) (value : Bytes) :
-    Nat → List MaskCfg → Bytes × Bool × List Nat → Option (Bytes × Bool × List Nat)
-  | _, [], s => some s
-  | i, m :: ms, (cur, ch, ap) =>
-    if !(pathEligible c m path && m.use && checkMatchRules m value) then leafLoop c re path value (i + 1) ms (cur, ch, ap)
-    else if m.hasRe && !m.groups.isEmpty then
-      match re i cur with
-      | none => none
-      | some [] => leafLoop c re path value (i + 1) ms (cur, ch, ap)
-      | some idx => leafLoop c re path value (i + 1) ms (maskedValue m idx cur, true, ap ++ [i])
-    else leafLoop c re path value (i + 1) ms (cur, ch, ap ++ [i])
+/-- state of a leaf going through the mask list: current value, "changed", the masks that
+    applied so far (index and mask) -/
+structure LeafSt where
+  cur : Bytes
+  changed : Bool := false
+  applied : List (Nat × MaskCfg) := []
 
-def specLeaf (c : Cfg) (re : Oracle) (path : List Bytes) (value : Bytes) : Option (Option Bytes × List Nat) :=
+/-- one leaf through the mask list; `el` says which masks the field lists leave for the leaf,
+    `value` is the leaf's original value (match rules look at it, not at the running value);
+    `none`: the oracle table has no row for a value that is asked for -/
+def leafLoop (el : Nat → MaskCfg → Bool) (re : Oracle) (value : Bytes) :
+    Nat → List MaskCfg → LeafSt → Option LeafSt
+  | _, [], s => some s
+  | i, m :: ms, s =>
+    if !el i m then leafLoop el re value (i + 1) ms s
+    else if !(m.use && checkMatchRules m value) then leafLoop el re value (i + 1) ms s
+    else if m.hasRe && !m.groups.isEmpty then
+      match re i s.cur with
+      | none => none
+      | some idx =>
+        if idx.isEmpty then leafLoop el re value (i + 1) ms s
+        else leafLoop el re value (i + 1) ms
+          { cur := maskedValue m idx s.cur, changed := true, applied := s.applied ++ [(i, m)] }
+    else leafLoop el re value (i + 1) ms { s with applied := s.applied ++ [(i, m)] }
+
+/-- new value of the leaf (`none`: untouched) and the masks that applied -/
+def specLeaf (el : Nat → MaskCfg → Bool) (masks : List MaskCfg) (re : Oracle) (value : Bytes) :
+    Option (Option Bytes × List (Nat × MaskCfg)) :=
   if value.isEmpty then some (none, []) else
-  match leafLoop c re path value 0 c.masks (value, false, []) with
+  match leafLoop el re value 0 masks { cur := value } with
   | none => none
-  | some (cur, ch, ap) => some (if ch then some cur else none, ap)
+  | some s => some (if s.changed then some s.cur else none, s.applied)
 
 mutual
   /-- the expected event and the masks that applied, leaf by leaf in document order -/
-  def specTree (c : Cfg) (re : Oracle) : List Bytes → JTree → Option (JTree × List Nat)
+  def specTree (c : Cfg) (re : Oracle) : List Bytes → JTree → Option (JTree × List (Nat × MaskCfg))
     | path, .str s =>
-      match specLeaf c re path s with
+      match specLeaf (fun _ m => pathEligible c m path) c.masks re s with
       | none => none
       | some (some b, ap) => some (.str b, ap)
       | some (none, ap) => some (.str s, ap)
     | path, .num s =>
-      match specLeaf c re path s with
+      match specLeaf (fun _ m => pathEligible c m path) c.masks re s with
       | none => none
       | some (some b, ap) => some (.str b, ap)
       | some (none, ap) => some (.num s, ap)
@@ -116,13 +166,13 @@ mutual
       | none => none
       | some (xs', ap) => some (.arr xs', ap)
     | _, t => some (t, [])
-  def specKVs (c : Cfg) (re : Oracle) : List Bytes → List (Bytes × JTree) → Option (List (Bytes × JTree) × List Nat)
+  def specKVs (c : Cfg) (re : Oracle) : List Bytes → List (Bytes × JTree) → Option (List (Bytes × JTree) × List (Nat × MaskCfg))
     | _, [] => some ([], [])
     | path, (k, v) :: rest =>
       match specTree c re (path ++ [k]) v, specKVs c re path rest with
       | some (v', a1), some (rest', a2) => some ((k, v') :: rest', a1 ++ a2)
       | _, _ => none
-  def specArr (c : Cfg) (re : Oracle) : List Bytes → Nat → List JTree → Option (List JTree × List Nat)
+  def specArr (c : Cfg) (re : Oracle) : List Bytes → Nat → List JTree → Option (List JTree × List (Nat × MaskCfg))
     | _, _, [] => some ([], [])
     | path, i, x :: rest =>
       match specTree c re (path ++ [itoa i]) x, specArr c re path (i + 1) rest with
@@ -151,16 +201,16 @@ def stripMarks (names : List Bytes) : JTree → JTree
 
 def treeEq (a b : JTree) : Bool := a.enc == b.enc
 
-def countOf (i : Nat) (l : List Nat) : Nat := (l.filter (· == i)).length
+def countOf (i : Nat) (l : List (Nat × MaskCfg)) : Nat := (l.filter (·.1 == i)).length
 
-def expectedMaskMetrics (ap : List Nat) : Nat → List MaskCfg → List Nat
+def expectedMaskMetrics (ap : List (Nat × MaskCfg)) : Nat → List MaskCfg → List Nat
   | _, [] => []
   | i, m :: ms => (if m.metric then countOf i ap else 0) :: expectedMaskMetrics ap (i + 1) ms
 
-def firedNames (c : Cfg) (ap : List Nat) : Nat → List MaskCfg → List Bytes
+def firedNames (c : Cfg) (ap : List (Nat × MaskCfg)) : Nat → List MaskCfg → List Bytes
   | _, [] => if ap.isEmpty || c.gField.isEmpty then [] else [c.gField]
   | i, m :: ms =>
-    (if ap.contains i && !m.appliedField.isEmpty then [m.appliedField] else []) ++ firedNames c ap (i + 1) ms
+    (if ap.any (·.1 == i) && !m.appliedField.isEmpty then [m.appliedField] else []) ++ firedNames c ap (i + 1) ms
 
 def verdict (c : Cfg) (re : Oracle) (root : JTree) (r : Result) : String :=
   if collision c root then "ok" else
